@@ -7,7 +7,9 @@
    scalar kinds and their values (nil and empty slices/maps distinct, a map = its entries in key order, so that
    reflect.DeepEqual is equality of gval); wrap = px.Wrap (types.go wrap/wrapReflected/WrapPrimitive),
    ptype_of = px.WrapReflectedType, reflect_to = Reflector.Reflect2 (the ReflectTo methods), inst = IsInstance
-   of the derived types, obj_* = the reflected object of a registered struct (objectvalue.go, objecttype.go).
+   of the derived types, obj_* = the reflected object of a registered struct (objectvalue.go, objecttype.go: attribute
+   order, Get, InitHash, declared defaults, the positional and the named-argument creator), reflect_into / reflect_hist =
+   Reflector.ReflectTo into a destination that holds an earlier value / went through a sequence of conversions.
    `ffmt` is the oracle for fmt's rendering of float64 map keys (it only orders the entries of a wrapped Hash):
    every theorem holds for EVERY such function. *)
 From Coq Require Import ZArith NArith Bool List.
@@ -54,6 +56,18 @@ Theorem C18_roundtrip_deep_equal :
 Proof. exact roundtrip_deep_equal. Qed.
 Print Assumptions C18_roundtrip_deep_equal.
 
+(* Clause 1 observed at Reflector.ReflectTo with a destination the caller used before: whatever value d of the Go
+   type the destination holds, and after ANY sequence `hist` of earlier conversions into it (failed ones included),
+   converting the wrapped value into it leaves exactly the value that was wrapped - nothing of what the destination
+   held survives (no entry of an earlier map, no element of an earlier slice, no field of an earlier struct). *)
+Theorem C18_roundtrip_used_destination :
+  forall (ffmt : Z -> str) t v d (hist : list value),
+    has_type v t = true -> rt_ok true t v = true ->
+    reflect_into t (reflect_hist t d hist) (wrap ffmt t v) = Ok v /\
+    reflect_hist t d (hist ++ [wrap ffmt t v]) = v.
+Proof. exact roundtrip_used_destination. Qed.
+Print Assumptions C18_roundtrip_used_destination.
+
 (* ------------------------------------------------------------------------------------------------ *)
 (** * Clause 2: the pcore type derived from the Go type accepts the wrapped value.
       Outside the input classes of the open findings uint64-ge-2^63, float-nonfinite, nil-slice-map-undef
@@ -73,8 +87,11 @@ Print Assumptions C18_ptype_accepts.
       first) differs from the field order; the theorem covers every struct shape, tags included.
       Guards: the fields are outside the finding classes (obj_ok = rt_ok false && acc_ok false per field; an
       interface{} field holds anything).  a: whether the wrapped struct was addressable.
-      PARTIAL: the constructor is modelled for the call with one argument per attribute; construction from the
-      init hash (named arguments, defaults omitted) is checked on the implementation only (direct check). *)
+      Three construction routes are modelled: one argument per attribute (this theorem), the positional call
+      without the trailing optional arguments that equal the declared default of their attribute
+      (C18_struct_object_trailing_defaults) and the named-argument creator given the init hash of the wrapped
+      struct, which leaves out every attribute whose value equals its declared default
+      (C18_struct_object_init_hash). *)
 Theorem C18_struct_object_roundtrip :
   forall (ffmt : Z -> str) (a : bool) n fs vs,
     has_type (GVStruct vs) (GStruct n fs) = true -> obj_ok fs vs = true ->
@@ -83,6 +100,35 @@ Theorem C18_struct_object_roundtrip :
     reflect_to (GPtr (GStruct n fs)) (VObj n true (GVStruct vs)) = Ok (GVPtr (Some (GVStruct vs))).
 Proof. exact struct_object_roundtrip. Qed.
 Print Assumptions C18_struct_object_roundtrip.
+
+(* Declared defaults (`puppet:"value=>..."` on a field, also on a pointer field, i.e. an optional attribute whose
+   default is not undef; a pointer field without tag has the implicit default undef).
+   Positional construction with the longest run of trailing optional arguments that equal the default of their
+   attribute left out (what attributesinfo.go:55 does, and what a caller does who omits optional arguments): the
+   constructor accepts the shorter list (at least RequiredCount arguments), completes it with the declared defaults
+   and rebuilds the same struct.  A GIVEN undef is not replaced by a default: a nil pointer field whose attribute
+   declares the default 'tcp' is not a default position, stays in the list and comes back as the nil pointer.
+   defaults_ok: a float default is not +-0 (Go's == identifies the two zeros, so the struct with the other zero would
+   come back with the default's zero: deeply equal for Go, a different bit pattern for the model's values). *)
+Theorem C18_struct_object_trailing_defaults :
+  forall (ffmt : Z -> str) (a : bool) n fs vs,
+    has_type (GVStruct vs) (GStruct n fs) = true -> obj_ok fs vs = true -> defaults_ok fs = true ->
+    obj_new n fs (cut_defaults 0 (required_count fs) (attr_order fs) (obj_gets ffmt a fs vs)) = Ok (VObj n true (GVStruct vs)).
+Proof. exact struct_object_trailing_defaults. Qed.
+Print Assumptions C18_struct_object_trailing_defaults.
+
+(* Construction from the init hash: InitHash() of the wrapped struct holds name => value for the attributes whose
+   value differs from the declared default (so a nil pointer whose attribute declares another default IS an entry,
+   with the value undef); the hash is an instance of the init type, the named-argument creator looks the attributes up
+   by name, completes the absent ones with their defaults and rebuilds the same struct.
+   NoDup: the attribute names (name tags / lower-cased field names) are distinct, as in every object type. *)
+Theorem C18_struct_object_init_hash :
+  forall (ffmt : Z -> str) (a : bool) n fs vs,
+    has_type (GVStruct vs) (GStruct n fs) = true -> obj_ok fs vs = true -> defaults_ok fs = true ->
+    NoDup (obj_attr_names fs) ->
+    obj_new_hash n fs (obj_init_hash ffmt a fs vs) = Ok (VObj n true (GVStruct vs)).
+Proof. exact struct_object_init_hash. Qed.
+Print Assumptions C18_struct_object_init_hash.
 
 (* ------------------------------------------------------------------------------------------------ *)
 (** * Open findings: the unguarded statements are false of the (faithful) model, with the witnesses *)
@@ -204,3 +250,46 @@ Proof. vm_compute. reflexivity. Qed.
 Example C18_example_struct_new :
   obj_new [84]%N ex_fields (obj_gets ex_ffmt false ex_fields ex_struct) = Ok (VObj [84]%N true (GVStruct ex_struct)).
 Proof. vm_compute. reflexivity. Qed.
+
+(* a used destination: a map that holds other keys, then two more conversions (one of them failing), then the value *)
+Example C18_example_used_destination :
+  let old := GVMap (Some [ (GVInt 1, GVPtr None); (GVInt 77, GVPtr (Some (GVSlice (Some [GVInt 5])))) ]) in
+  has_type old ex_ty = true /\
+  reflect_hist ex_ty old [VHash [(VInt 3, VUndef)]; VStr [120]%N; wrap ex_ffmt ex_ty ex_val] = ex_val.
+Proof. vm_compute. auto. Qed.
+
+(* declared defaults on pointer fields: Host string; Proto *string `value=>'tcp'`; Port *uint16 `value=>8080`;
+   Ratio *float32 `value=>0.5`; Note *string *)
+Definition ex_tcp : str := [116; 99; 112]%N.
+Definition ex_endpoint : list gfield :=
+  [ GField [72; 111; 115; 116]%N None None GString;
+    GField [80; 114; 111; 116; 111]%N None (Some (LStr ex_tcp)) (GPtr GString);
+    GField [80; 111; 114; 116]%N None (Some (LInt 8080)) (GPtr (GInt KUint16));
+    GField [82; 97; 116; 105; 111]%N None (Some (LFloat 4602678819172646912)) (GPtr GFloat32);
+    GField [78; 111; 116; 101]%N None None (GPtr GString) ].
+(* Proto nil (NOT its default), Port at its default, Ratio at its default, Note nil (its implicit default) *)
+Definition ex_endpoint_val : list gval :=
+  [ GVStr [99]%N; GVPtr None; GVPtr (Some (GVInt 8080)); GVPtr (Some (GVFloat 4602678819172646912)); GVPtr None ].
+
+Example C18_example_defaults_hypotheses :
+  has_type (GVStruct ex_endpoint_val) (GStruct [84]%N ex_endpoint) = true /\ obj_ok ex_endpoint ex_endpoint_val = true /\
+  defaults_ok ex_endpoint = true /\ required_count ex_endpoint = 1%nat.
+Proof. vm_compute. auto. Qed.
+
+(* the init hash keeps 'proto' => undef (undef is not the default 'tcp') and leaves out port, ratio, note *)
+Example C18_example_init_hash :
+  obj_init_hash ex_ffmt false ex_endpoint ex_endpoint_val =
+  [ (VStr [104; 111; 115; 116]%N, VStr [99]%N); (VStr [112; 114; 111; 116; 111]%N, VUndef) ] /\
+  obj_new_hash [84]%N ex_endpoint (obj_init_hash ex_ffmt false ex_endpoint ex_endpoint_val) =
+  Ok (VObj [84]%N true (GVStruct ex_endpoint_val)).
+Proof. vm_compute. auto. Qed.
+
+(* the positional list without the trailing defaults keeps the undef of proto; the constructor completes the rest *)
+Example C18_example_trailing_defaults :
+  cut_defaults 0 1 (attr_order ex_endpoint) (obj_gets ex_ffmt false ex_endpoint ex_endpoint_val) = [VStr [99]%N; VUndef] /\
+  obj_new [84]%N ex_endpoint [VStr [99]%N; VUndef] = Ok (VObj [84]%N true (GVStruct ex_endpoint_val)) /\
+  obj_new [84]%N ex_endpoint [VStr [99]%N] =
+  Ok (VObj [84]%N true (GVStruct [ GVStr [99]%N; GVPtr (Some (GVStr ex_tcp)); GVPtr (Some (GVInt 8080));
+                                   GVPtr (Some (GVFloat 4602678819172646912)); GVPtr None ])) /\
+  obj_new [84]%N ex_endpoint [] = Err EArgs.
+Proof. vm_compute. auto. Qed.
